@@ -11,11 +11,13 @@ for d in sorted(glob.glob("/verif/seeded/*/")):
     sigs = (m.get("checks_quick_against_patched_tree", {}).get(m["property"], {}) or {}).get("signatures", [])
     if m.get("signatures_after_strengthening"):
         sigs = m["signatures_after_strengthening"]
+    if m.get("current", {}).get("signatures"):
+        sigs = m["current"]["signatures"]
     rows.append("| %s | %s | %s | %s | %s | %s |" % (
         name, m["property"], ", ".join(os.path.basename(f) for f in files),
         (m.get("needs_to_manifest") or "").replace("|", "/")[:160],
         ", ".join(m.get("caught_by", [])) or "**none**",
-        ("yes" if own else "NO") + (" (after strengthening)" if m.get("strengthened") else "") + (": " + ", ".join(sigs[:2]) if sigs else ""),
+        ("obsolete: " + m["obsolete"][:140] if m.get("obsolete") else (("yes" if own else ("outside the property's quantifier (" + m["scope_note"][:120] + ")" if m.get("scope_note") else "NO")) + (" (after strengthening)" if m.get("strengthened") and own else "") + (": " + ", ".join(sigs[:2]) if sigs and own else ""))),
     ))
 table = "\n".join(["| seeded change | property | file(s) | needs to manifest | reported by | own check |", "|---|---|---|---|---|---|"] + rows)
 p = "/verif/DESIGN.md"
